@@ -121,13 +121,37 @@ Definition check_http (c : http_case) : verdict :=
   {| v_corr := list_eqb ostep_eqb model (hc_obs c);
      v_prop := negb (is_nil (hc_undel c)) ||
                (no_panic (hc_obs c) && Nat.eqb (length (hc_obs c)) (length (hc_hist c)) &&
-                trace_ok (accepts O) (mk_trace (http_views (hc_hist c)) (map o_calls (hc_obs c))));
+                (* either reading of "the endpoint cannot be reached" is accepted: the statement fixes neither *)
+                (trace_ok (accepts O) (mk_trace (http_views_r true (hc_hist c)) (map o_calls (hc_obs c))) ||
+                 trace_ok (accepts O) (mk_trace (http_views_r false (hc_hist c)) (map o_calls (hc_obs c)))));
      v_guards := [] |}.
+
+(** ** HTTP endpoint polled by the provider's own scheduler (newProvider, Start, gocron) *)
+Record hsched_case := {
+  hs_rej : list cid;
+  hs_hist : list http_event;          (* two polls per phase that was observed *)
+  hs_obs : list (list pcall);         (* the ACCEPTED calls of each phase, attributed to its first poll *)
+  hs_stalled : bool;                  (* the provider stopped polling *)
+  hs_overlap : bool;                  (* two polls of the endpoint overlapped *)
+  hs_phases : nat }.
+
+Definition check_hsched (c : hsched_case) : verdict :=
+  let O := mk_oracle (hs_rej c) [] in
+  let model := map (fun h => filter p_ok (h_calls h)) (snd (http_run O (hs_hist c))) in
+  let complete := negb (hs_stalled c) && negb (hs_overlap c) && Nat.eqb (length (hs_hist c)) (2 * hs_phases c) in
+  {| v_corr := list_eqb (list_eqb pcall_eqb) model (hs_obs c) && complete;
+     v_prop := complete &&
+               (trace_ok (accepts O) (mk_trace (http_views_r true (hs_hist c)) (hs_obs c)) ||
+                trace_ok (accepts O) (mk_trace (http_views_r false (hs_hist c)) (hs_obs c)));
+     v_guards := [] |}.
+
+Definition hsc rej h o st ov n :=
+  {| hs_rej := rej; hs_hist := h; hs_obs := o; hs_stalled := st; hs_overlap := ov; hs_phases := n |}.
 
 (** ** cloud blob *)
 Record blob_case := {
   bc_nb : nat; bc_nk : nat;
-  bc_rej : list cid;
+  bc_rej : list cid; bc_undel : list nat;
   bc_hist : list blob_event;
   bc_obs : list ostep }.
 
@@ -144,16 +168,18 @@ Fixpoint blob_steps (O : oracle) (fixed : bool) (nb nk : nat) (s : bstates) (h :
   end.
 
 Definition check_blob (impl_fixed : bool) (c : blob_case) : verdict :=
-  let O := mk_oracle (bc_rej c) [] in
+  let O := mk_oracle (bc_rej c) (bc_undel c) in
   let model := blob_steps O impl_fixed (bc_nb c) (bc_nk c) bst_empty (bc_hist c) in
   {| v_corr := list_eqb ostep_eqb model (bc_obs c);
-     v_prop := no_panic (bc_obs c) && Nat.eqb (length (bc_obs c)) (length (bc_hist c)) &&
-               trace_ok (accepts O) (mk_trace (blob_views (bc_nk c) (bc_hist c)) (map o_calls (bc_obs c)));
+     v_prop := negb (is_nil (bc_undel c)) ||
+               (no_panic (bc_obs c) && Nat.eqb (length (bc_obs c)) (length (bc_hist c)) &&
+                (trace_ok (accepts O) (mk_trace (blob_views_r true (bc_nk c) (bc_hist c)) (map o_calls (bc_obs c))) ||
+                 trace_ok (accepts O) (mk_trace (blob_views_r false (bc_nk c) (bc_hist c)) (map o_calls (bc_obs c)))));
      v_guards := guards [(1%Z, negb impl_fixed && blob_guard_F1 (bc_nk c) (bc_hist c));
-                         (5%Z, blob_guard_F5 (accepts O) (bc_hist c));
-                         (6%Z, blob_guard_F6 (bc_hist c))] |}.
+                         (5%Z, blob_guard_F5 (accepts O) (bc_nk c) (bc_hist c));
+                         (6%Z, blob_guard_F6 (accepts O) (bc_nk c) (bc_hist c))] |}.
 
-Definition blc nb nk rej h o := {| bc_nb := nb; bc_nk := nk; bc_rej := rej; bc_hist := h; bc_obs := o |}.
+Definition blc nb nk rej undel h o := {| bc_nb := nb; bc_nk := nk; bc_rej := rej; bc_undel := undel; bc_hist := h; bc_obs := o |}.
 
 (** ** Kubernetes *)
 (** observed per object handed to the handlers: the processor calls, or a handler panic *)
